@@ -58,6 +58,11 @@ def _stored(x):
     return x[:1]
 
 
+FLIPS = [("UEB_UseSpacesAroundAllOperators", "true", "false"), ("UEB_START_MODE", "Grade1", "Grade2"), ("UseSpacesAroundAllOperators", "true", "false"),
+         ("Vietnam_UseDropNumbers", "true", "false"), ("LaTeX_UseShortName", "true", "false"), ("DecimalSeparators", ",", "."), ("BlockSeparators", ". ", ", "),
+         ("UEB_DoubleStruck", "\u2818\u283c", "\u2808"), ("Language", "es", "en")]
+
+
 def build_ops(d, ids):
     """-> (ops, plan) ; plan: list of (kind, description, op index, snapshot index or None, extra)"""
     ops = [["mathml", d]]       # (work() puts a write of the highlight style in front of every case, so a leak cannot spill into the next case)
@@ -105,6 +110,19 @@ def build_ops(d, ids):
         ni = len(ops)
         ops.append(["navid"])
         query("braille-ref", f"get_braille(current) after {c1}", ["braille", {"r": ni, "k": 0}], None)
+    # preferences that change the braille of the SAME stored expression while the navigation position stays where it is: after each
+    # write the position query must describe the braille as it is now - inside it, and equal to what the query gives once the expression
+    # has been set again and the same node selected (a fresh computation in the same session)
+    if ids:
+        leaf = ids[-1]
+        for name, v1, v2 in FLIPS:
+            ops.append(["mathml", d])
+            ops.append(["setnav", leaf, 0])
+            ops.append(["brpos"])
+            for v in (v1, v2):
+                i0 = len(ops)
+                ops.extend([["pref", name, v], ["brpos"], ["braille", ""], ["mathml", d], ["setnav", leaf, 0], ["brpos"]])
+                plan.append(("flip", f"{name}={v}", i0, None, None))
     plan.append(("final", "", None, snap(True), None))
     return ops, plan
 
@@ -164,6 +182,16 @@ def work(item):
                 base_at = base_cheap[1]
                 continue
             if kind == "nav":
+                continue
+            if kind == "flip":
+                counts["queries"] += 1
+                wr, p1, br, _, sn_, p2 = r[i:i + 6]
+                if is_ok(wr) and is_ok(br) and is_ok(p1):
+                    a, z = val(p1)
+                    if not (0 <= a <= z <= len(val(br))):
+                        bad("position-out-of-range|after-preference", f"after {desc} get_braille_position() = ({a}, {z}) but the braille now has {len(val(br))} cells")
+                    elif is_ok(sn_) and is_ok(p2) and val(p1) != val(p2):
+                        bad("position-stale|after-preference", f"after {desc} get_braille_position() = {val(p1)}, but {val(p2)} once the expression is set again and the same node selected")
                 continue
             if kind == "setnav":
                 if extra in canon_ids:
